@@ -171,11 +171,106 @@ type unrollSite struct {
 	write ssa.Instruction // a write-through use (nil if none)
 	how   string
 	esc   bool
+	// helperGuard: the alias was handed out by a helper, and the helper returns it only under
+	// Contiguous()==true on this very array
+	helperGuard bool
+	via         string // name of the helper, for reports
 }
 
-// unrollWrites finds, for every Unroll() call in module code, whether its result is written through.
+// aliasUses: starting from seed (a slice aliasing an array's storage), the first write through it in fn, whether it
+// escapes, and the (return instruction, result index) pairs by which it is returned.
+type aliasRet struct {
+	ret *ssa.Return
+	idx int
+}
+
+func aliasUses(fn *ssa.Function, seed ssa.Value) (write ssa.Instruction, how string, esc bool, rets []aliasRet) {
+	al := map[ssa.Value]bool{seed: true}
+	cells := map[ssa.Value]bool{}
+	for changed := true; changed; {
+		changed = false
+		eachInstr(fn, func(_ *ssa.BasicBlock, _ int, i2 ssa.Instruction) {
+			switch x := i2.(type) {
+			case *ssa.Store:
+				if al[x.Val] {
+					if a, ok := x.Addr.(*ssa.Alloc); ok && !cells[a] {
+						cells[a] = true
+						changed = true
+					}
+				}
+			case *ssa.UnOp:
+				if x.Op == token.MUL && cells[x.X] && !al[x] {
+					al[x] = true
+					changed = true
+				}
+			case *ssa.Slice:
+				if al[x.X] && !al[x] {
+					al[x] = true
+					changed = true
+				}
+			case *ssa.Phi:
+				for _, e := range x.Edges {
+					if al[e] && !al[x] {
+						al[x] = true
+						changed = true
+					}
+				}
+			}
+		})
+	}
+	eachInstr(fn, func(_ *ssa.BasicBlock, _ int, i2 ssa.Instruction) {
+		switch x := i2.(type) {
+		case *ssa.Store:
+			if ia, ok := x.Addr.(*ssa.IndexAddr); ok && al[ia.X] && write == nil {
+				write, how = i2, "element store"
+			}
+		case *ssa.Return:
+			for ri, rv := range x.Results {
+				if al[rv] {
+					esc = true
+					rets = append(rets, aliasRet{x, ri})
+				}
+			}
+		case ssa.CallInstruction:
+			c := x.Common()
+			if b, ok := c.Value.(*ssa.Builtin); ok {
+				if b.Name() == "copy" && len(c.Args) > 0 && al[c.Args[0]] && write == nil {
+					write, how = i2, "copy destination"
+				}
+				return
+			}
+			for _, a := range c.Args {
+				if cells[a] {
+					// &impl passed to a function
+					if name, ok := isHDF5Call(c); ok && strings.HasPrefix(name, "Read") {
+						if write == nil {
+							write, how = i2, "address passed to hdf5."+name
+						}
+					}
+				}
+				if al[a] {
+					// passed on as a value: treated as escape (the callee's own obligations apply)
+					if _, ok := isHDF5Call(c); !ok {
+						esc = true
+					}
+				}
+			}
+		}
+	})
+	return
+}
+
+// unrollSites finds, for every Unroll() call in module code, whether its result is written through — in the
+// function that calls Unroll, or in a caller of a helper that returns the unrolled slice of one of its parameters.
 func unrollSites(p *Program) []unrollSite {
 	var out []unrollSite
+	type handed struct {
+		h     *ssa.Function
+		prm   int // parameter of h whose storage is handed out
+		res   int // result index
+		guard bool
+	}
+	var handedOut []handed
 	for _, fn := range p.SrcFuncs() {
 		eachInstr(fn, func(_ *ssa.BasicBlock, _ int, ins ssa.Instruction) {
 			call, ok := ins.(*ssa.Call)
@@ -187,80 +282,61 @@ func unrollSites(p *Program) []unrollSite {
 				return
 			}
 			s := unrollSite{fn: fn, call: call, recv: recv}
-			// aliases of the result within fn
-			al := map[ssa.Value]bool{call: true}
-			cells := map[ssa.Value]bool{}
-			for changed := true; changed; {
-				changed = false
-				eachInstr(fn, func(_ *ssa.BasicBlock, _ int, i2 ssa.Instruction) {
-					switch x := i2.(type) {
-					case *ssa.Store:
-						if al[x.Val] {
-							if a, ok := x.Addr.(*ssa.Alloc); ok && !cells[a] {
-								cells[a] = true
-								changed = true
-							}
-						}
-					case *ssa.UnOp:
-						if x.Op == token.MUL && cells[x.X] && !al[x] {
-							al[x] = true
-							changed = true
-						}
-					case *ssa.Slice:
-						if al[x.X] && !al[x] {
-							al[x] = true
-							changed = true
-						}
-					case *ssa.Phi:
-						for _, e := range x.Edges {
-							if al[e] && !al[x] {
-								al[x] = true
-								changed = true
-							}
-						}
+			var rets []aliasRet
+			s.write, s.how, s.esc, rets = aliasUses(fn, call)
+			out = append(out, s)
+			// handed out by a non-method helper through a return: follow into the callers
+			if prm, isPrm := origin1(recv).(*ssa.Parameter); isPrm && prm.Parent() == fn && fn.Signature.Recv() == nil {
+				pi := -1
+				for i, q := range fn.Params {
+					if q == prm {
+						pi = i
 					}
-				})
+				}
+				byRes := map[int]bool{}
+				guard := map[int]bool{}
+				for _, ar := range rets {
+					if _, seen := byRes[ar.idx]; !seen {
+						guard[ar.idx] = true
+					}
+					byRes[ar.idx] = true
+					if !contiguousGuard(ar.ret.Block(), recv, true) && !contiguousGuard(call.Block(), recv, true) {
+						guard[ar.idx] = false
+					}
+				}
+				for ri := range byRes {
+					if pi >= 0 {
+						handedOut = append(handedOut, handed{fn, pi, ri, guard[ri]})
+					}
+				}
 			}
-			eachInstr(fn, func(_ *ssa.BasicBlock, _ int, i2 ssa.Instruction) {
-				switch x := i2.(type) {
-				case *ssa.Store:
-					if ia, ok := x.Addr.(*ssa.IndexAddr); ok && al[ia.X] && s.write == nil {
-						s.write, s.how = i2, "element store"
-					}
-				case *ssa.Return:
-					for _, rv := range x.Results {
-						if al[rv] {
-							s.esc = true
-						}
-					}
-				case ssa.CallInstruction:
-					c := x.Common()
-					if b, ok := c.Value.(*ssa.Builtin); ok {
-						if b.Name() == "copy" && len(c.Args) > 0 && al[c.Args[0]] && s.write == nil {
-							s.write, s.how = i2, "copy destination"
-						}
-						return
-					}
-					for _, a := range c.Args {
-						if cells[a] {
-							// &impl passed to a function
-							if name, ok := isHDF5Call(c); ok && strings.HasPrefix(name, "Read") {
-								if s.write == nil {
-									s.write, s.how = i2, "address passed to hdf5."+name
-								}
-							}
-						}
-						if al[a] {
-							// passed on as a value: treated as escape (the callee's own obligations apply)
-							if _, ok := isHDF5Call(c); !ok {
-								s.esc = true
-							}
+		})
+	}
+	for _, ho := range handedOut {
+		for _, fn := range p.SrcFuncs() {
+			for _, c := range callsIn(fn) {
+				call, ok := c.(*ssa.Call)
+				if !ok || c.Common().StaticCallee() != ho.h || ho.prm >= len(c.Common().Args) {
+					continue
+				}
+				var seed ssa.Value
+				if ho.h.Signature.Results().Len() == 1 {
+					seed = call
+				} else {
+					for _, ref := range refs(call) {
+						if ex, ok := ref.(*ssa.Extract); ok && ex.Index == ho.res {
+							seed = ex
 						}
 					}
 				}
-			})
-			out = append(out, s)
-		})
+				if seed == nil {
+					continue
+				}
+				s := unrollSite{fn: fn, call: call, recv: c.Common().Args[ho.prm], helperGuard: ho.guard, via: ho.h.Name()}
+				s.write, s.how, s.esc, _ = aliasUses(fn, seed)
+				out = append(out, s)
+			}
+		}
 	}
 	return out
 }
@@ -381,7 +457,7 @@ func checkBulkOps(p *Program, r *Report, prop string) {
 		key := fmt.Sprintf("%s:Unroll-write:%s", FuncKey(s.fn), describeObj(s.recv))
 		pos := p.Pos(s.write.Pos())
 		fresh := freshRootArray(s.recv)
-		guarded := contiguousGuard(s.write.Block(), s.recv, true) || contiguousGuard(s.call.Block(), s.recv, true)
+		guarded := s.helperGuard || contiguousGuard(s.write.Block(), s.recv, true) || contiguousGuard(s.call.Block(), s.recv, true)
 		if !cOnly {
 			if fresh || guarded {
 				r.OK("R02.1", fmt.Sprintf("%s: write through %s.Unroll() (%s) %s", FuncKey(s.fn), describeObj(s.recv), s.how, map[bool]string{true: "on a fresh root array", false: "under Contiguous()==true"}[fresh]))
@@ -1344,7 +1420,7 @@ func checkHelpersAlwaysWrite(p *Program, r *Report) {
 			switch x := ins.(type) {
 			case *ssa.Store:
 				if ia, ok := x.Addr.(*ssa.IndexAddr); ok {
-					if c, ok := origin1(ia.X).(*ssa.Call); ok && callName(c.Common()) == "Unroll" && isDest(recvOf(c.Common())) {
+					if isDest(unrolledArray(ia.X, 0)) {
 						mark(b)
 					}
 				}
@@ -1437,4 +1513,62 @@ func callsItsParam(f *ssa.Function, j int) bool {
 		}
 	}
 	return false
+}
+
+
+// unrolledArray: the array whose storage the slice v is the Unroll() of — directly, or as a result of a module
+// helper that returns the Unroll() of one of its parameters (nil results on its other paths are ignored).
+func unrolledArray(v ssa.Value, depth int) ssa.Value {
+	if depth > 2 {
+		return nil
+	}
+	o := origin1(v)
+	switch x := o.(type) {
+	case *ssa.Call:
+		if callName(x.Common()) == "Unroll" {
+			return recvOf(x.Common())
+		}
+		return unrollThroughHelper(x, 0, depth)
+	case *ssa.Extract:
+		if c, ok := x.Tuple.(*ssa.Call); ok {
+			return unrollThroughHelper(c, x.Index, depth)
+		}
+	}
+	return nil
+}
+
+func unrollThroughHelper(c *ssa.Call, res int, depth int) ssa.Value {
+	h := c.Common().StaticCallee()
+	if h == nil || h.Blocks == nil || !InModule(h) {
+		return nil
+	}
+	var prm *ssa.Parameter
+	for _, ret := range returnsOf(h) {
+		if res >= len(ret.Results) {
+			return nil
+		}
+		for _, o := range origins(ret.Results[res]) {
+			if o == nil || isNilConst(o) {
+				continue
+			}
+			a := unrolledArray(o, depth+1)
+			if a == nil {
+				return nil
+			}
+			p2, ok := origin1(a).(*ssa.Parameter)
+			if !ok || p2.Parent() != h || prm != nil && prm != p2 {
+				return nil
+			}
+			prm = p2
+		}
+	}
+	if prm == nil {
+		return nil
+	}
+	for i, q := range h.Params {
+		if q == prm && i < len(c.Common().Args) {
+			return c.Common().Args[i]
+		}
+	}
+	return nil
 }
